@@ -629,7 +629,12 @@ func (cx *c03ctx) exec(line string) {
 		}
 		sid := "~"
 		if st == "ok" && ok && w[2] == "num" {
-			id, _ := cx.f.GetCellStyle(c03Sheet, sp) // already densified by the call itself
+			// the date style is applied where the value is stored: at the anchor of the merged range
+			at := sp
+			if an, err := xl.VerifC03Anchor(cx.f, c03Sheet, sp); err == nil {
+				at = an
+			}
+			id, _ := cx.f.GetCellStyle(c03Sheet, at)
 			sid = strconv.Itoa(id)
 		}
 		w[5] = sid
@@ -1480,6 +1485,9 @@ var c03witnesses = [][]string{
 	{"new 1", "mrg C1 C3", "mrg A3 A4", "mrg A4 D4", "gm"},                                   // one-pass normalisation leaves an overlap
 	{"new 1", "mrg A1 C3", "mrg D2 E4", "mrg B4 D5", "gm"},                                   // ... or drops a range
 	{"new 1", "mrg B2 D2", "mrg C1 C3", "gm", "unm C1 C1", "gm"},
+	// two small ranges in opposite far corners: the old normalisation reserved 16384 x 1048576 pointers
+	// (far rows first: prepareSheetXML sizes new rows after the last row's cell count)
+	{"new 1", "mrg A1048575 B1048576", "mrg XFC1 XFD2", "gm", "unm XFD1 XFD1", "gm"},
 	{"new 1", "mrg B2 C3", "mrg C3 E5", "gm"},                                                // a pair normalises to its bounding box
 	{"new 1", "mrg C3 E5", "mrg B2 C3", "gm"},
 	{"new 1", "mrg B4 C5", "mrg C2 E4", "gm"},                             // cross
